@@ -25,8 +25,10 @@ RULE = ("e2e case = (protocol version, token/key (bytes or hex) / device id, dev
 ASSUMPTIONS = ["unsolicited frames never describe a stale state", "values outside the stated domains (e.g. 20.3 C, fan 200) are not generated",
                "oracle choices of C10/C11 for bit positions apply",
                "concurrent sub-workload: TCP delivers each connection's bytes in order (FIFO latency model)"]
+# reach anchors: only entry points this check calls itself or callbacks the event loop needs (robust against internal refactors);
+# that the mechanism was really exercised is demanded through MIN_NONTRIVIAL / MIN_HIST outcome counts
 ANCHORS = ["device.py:AirConditioner.apply", "device.py:AirConditioner.refresh", "base_device.py:Device._send_command", "lan.py:LAN.send",
-           "command.py:SetStateCommand.tobytes", "command.py:StateResponse._parse", "lan.py:_LanProtocolV3.data_received"]
+           "lan.py:_LanProtocolV3.data_received"]
 MIN_NONTRIVIAL = {"quick": 1200, "thorough": 60000}
 MIN_HIST = {"quick": {"e2e-ok": 900, "concurrent-refresh-checked": 300}, "thorough": {"e2e-ok": 40000, "concurrent-refresh-checked": 20000}}
 WORKERS = {"quick": 1, "thorough": 16}
@@ -68,6 +70,29 @@ def generate(ctx, rng):
     for row in gen.pairwise(rng, gen.PAIRWISE_DOMAINS):
         i += 1
         yield ("pw", i), _case(rng, row)
+    # a chatty device: a burst of dozens of unsolicited reports travels together with the reply
+    for burst in (17, 33, 40, 70, 130, 260):
+        for version in (2, 3):
+            for where in ("before", "after"):
+                i += 1
+                c = _case(rng, gen.random_state(rng), version=version, seg=rng.choice(["aligned", "coalesced"] if version == 3 else ["aligned"]))
+                c["before"], c["after"] = (burst, 0) if where == "before" else (1, burst)
+                c["reauth"] = None
+                yield ("burst", i), c
+                # ... the same burst made of reports that say nothing about the settings (a type-5 0xA1 report), after which
+                # another controller changes the unit and client A itself refreshes
+                # (placed where the unchanged transport provably hands the reply to the exchange that asked for it: behind the
+                # reply, or ahead of it inside the same V3 segment; a report of another kind ahead of the reply in a segment of its
+                # own is what LAN.send returns as "the" response - DESIGN 4, observation 2 - and is not judged)
+                i += 1
+                c = dict(c, burst_kind="other", a_refresh=gen.random_state(rng), sseed=rng.getrandbits(32))
+                if where == "before":
+                    if version != 3:
+                        continue
+                    c["seg"] = "coalesced"
+                else:
+                    c["before"] = 0
+                yield ("burst-other", i), c
     for _ in range(1300 if quick else 450000):
         i += 1
         yield ("rnd", i), _case(rng, gen.random_state(rng))
@@ -144,8 +169,14 @@ def run_case(ctx, case):
     def on_exchange(conn, req, packets, meta):
         info["exchanges"] += 1
         info.setdefault("ids", set()).add(meta["v2"]["device_id"])
-        extra_b = [dev.wrap(conn, model.state_frame(r.choice([3, 4, 5]))) for _ in range(case["before"])]
-        extra_a = [dev.wrap(conn, model.state_frame(r.choice([3, 4, 5]))) for _ in range(case["after"])]
+        if case.get("burst_kind") == "other":
+            def unsolicited():
+                return acframe.build(bytes([0xA1]) + r.randbytes(21), 5)
+        else:
+            def unsolicited():
+                return model.state_frame(r.choice([3, 4, 5]))
+        extra_b = [dev.wrap(conn, unsolicited()) for _ in range(case["before"])]
+        extra_a = [dev.wrap(conn, unsolicited()) for _ in range(case["after"])]
         allp = extra_b + list(packets) + extra_a
         if not allp:
             return []
@@ -173,6 +204,13 @@ def run_case(ctx, case):
             await a.authenticate(tok_arg, key_arg)
             await a.refresh()
             a_reads = (a.online, int(a.fan_speed), a.target_humidity, model.state["fan"], model.state["target_humidity"])
+        if case.get("a_refresh"):
+            model.state.update(gen.expected_device_state(case["a_refresh"]))      # another controller changes the unit
+            await asyncio.sleep(2.0)      # the reports trailing the previous reply have all landed (in-flight frames: observation 2)
+            await a.refresh()
+            a_reads2 = (a.online, H.public_state(a), dict(model.state))
+        else:
+            a_reads2 = None
         if case["toggle"]:
             before_disp = model.state["display_on"]
             await a.toggle_display()
@@ -181,12 +219,12 @@ def run_case(ctx, case):
         if version == 3:
             await b.authenticate(tok_arg, key_arg)
         await b.refresh()
-        return dev_after_apply, n_controls, toggled, b.online, H.public_state(b), dict(model.state), a_reads
+        return dev_after_apply, n_controls, toggled, b.online, H.public_state(b), dict(model.state), a_reads, a_reads2
 
     key_ = ("e2e", version, case["id"], gen.state_key(st), case["seg"], case["before"], case["after"], case["toggle"], case["sseed"])
     segclass = "v2-segment-splits-packet" if (version == 2 and info["splits"]) else None
     try:
-        (dev_after_apply, n_controls, toggled, online, got, dev_final, a_reads), loop = H.run_virtual(go, net)
+        (dev_after_apply, n_controls, toggled, online, got, dev_final, a_reads, a_reads2), loop = H.run_virtual(go, net)
     except Exception as e:  # noqa: BLE001
         ctx.count(key_, kind="e2e-raised")
         segclass = "v2-segment-splits-packet" if (version == 2 and info["splits"]) else None
@@ -211,18 +249,29 @@ def run_case(ctx, case):
     if toggled is not None and toggled[0] == toggled[1]:
         bad = True
         ctx.violation("toggle-not-received", "toggle_display() did not reach the device", case)
+    def differences(d, got):
+        want = {"power": d["power"], "mode": d["mode"], "target_temperature": d["target_temperature"], "fan": d["fan"], "swing": d["swing"],
+                "eco": d["eco"], "turbo": d["turbo"], "sleep": d["sleep"], "fahrenheit": d["fahrenheit"], "freeze_protection": d["freeze_protection"],
+                "follow_me": d["follow_me"], "purifier": d["purifier"], "target_humidity": d["target_humidity"], "aux": d["aux"],
+                "display_on": d["display_on"]}
+        rd = {}
+        for f, w in want.items():
+            g = got[f]
+            g = int(g) if f in ("mode", "fan", "swing", "aux") and g is not None else g
+            if g != w:
+                rd[f] = (w, g)
+        return rd
+
+    # --- client A's own refresh after another controller changed the unit (its replies travel with a burst of unrelated reports)
+    if a_reads2 is not None:
+        ctx.bump("own-refresh-behind-a-burst-checked")
+        rd = differences(a_reads2[2], a_reads2[1])
+        if not a_reads2[0] or rd:
+            bad = True
+            ctx.violation(segclass or f"refresh-mismatch/{sorted(rd)[0] if rd else 'offline'}", f"client A's refresh behind {case['before']}+{case['after']} unrelated reports: "
+                          f"online={a_reads2[0]}, differences {rd} (V{version}, segmentation {case['seg']})", case)
     # --- refresh half: B reports the device state
-    d = dev_final
-    want = {"power": d["power"], "mode": d["mode"], "target_temperature": d["target_temperature"], "fan": d["fan"], "swing": d["swing"],
-            "eco": d["eco"], "turbo": d["turbo"], "sleep": d["sleep"], "fahrenheit": d["fahrenheit"], "freeze_protection": d["freeze_protection"],
-            "follow_me": d["follow_me"], "purifier": d["purifier"], "target_humidity": d["target_humidity"], "aux": d["aux"],
-            "display_on": d["display_on"]}
-    rd = {}
-    for f, w in want.items():
-        g = got[f]
-        g = int(g) if f in ("mode", "fan", "swing", "aux") and g is not None else g
-        if g != w:
-            rd[f] = (w, g)
+    rd = differences(dev_final, got)
     if not online or rd:
         bad = True
         mech = segclass or f"refresh-mismatch/{sorted(rd)[0] if rd else 'offline'}"
